@@ -442,3 +442,96 @@ Proof.
 Qed.
 
 End RT2.
+
+(* ---------------- the fixed point ---------------- *)
+(* a parsed value seen as a tree again *)
+Fixpoint embed (v : jv) : vt :=
+  match v with
+  | JUndef => VUndef | JNull => VNull | JTrue => VTrue | JFalse => VFalse
+  | JNat n => VNat n | JInt z => VInt z | JReal txt => VReal txt | JStr s => VStr s
+  | JArr l => VArr (map embed l)
+  | JObj l => VObj (map (fun kv => (fst kv, embed (snd kv))) l)
+  end.
+
+Lemma twf_defined : forall v, twf v -> v_undef (embed (normalize v)) = false.
+Proof.
+  induction v; cbn [twf]; intros H; try contradiction; try reflexivity.
+  - cbn [normalize]. destruct (0 <=? z)%Z; reflexivity.
+  - cbn [normalize]. apply IHv. exact H.
+Qed.
+
+Lemma live_all : forall l, (forall x, In x l -> v_undef x = false) -> live l = l.
+Proof.
+  induction l as [|x t IH]; intros H; [reflexivity|]. cbn [live filter]. rewrite (H x (or_introl eq_refl)). cbn [negb].
+  f_equal. apply IH. intros y Hy. apply H. right. exact Hy.
+Qed.
+
+Lemma livem_all : forall l, (forall kv, In kv l -> v_undef (snd kv) = false) -> livem l = l.
+Proof.
+  induction l as [|x t IH]; intros H; [reflexivity|]. cbn [livem filter]. rewrite (H x (or_introl eq_refl)). cbn [negb].
+  f_equal. apply IH. intros y Hy. apply H. right. exact Hy.
+Qed.
+
+Lemma live_twf : forall xs,
+  (fix go (l : list vt) : Prop := match l with [] => True | x :: t => (v_undef x = true \/ twf x) /\ go t end) xs ->
+  forall x, In x (live xs) -> twf x.
+Proof.
+  induction xs as [|y t IH]; intros H x Hin; [contradiction|]. destruct H as [Hy Ht].
+  cbn [live filter] in Hin. destruct (v_undef y) eqn:E; cbn [negb] in Hin.
+  - apply IH; assumption.
+  - destruct Hin as [Hin|Hin]; [subst; destruct Hy; [congruence|assumption]|apply IH; assumption].
+Qed.
+
+Lemma livem_twf : forall ms,
+  (fix go (l : list (list N * vt)) : Prop := match l with [] => True | (_, x) :: t => (v_undef x = true \/ twf x) /\ go t end) ms ->
+  forall kv, In kv (livem ms) -> twf (snd kv).
+Proof.
+  induction ms as [|[k y] t IH]; intros H kv Hin; [contradiction|]. destruct H as [Hy Ht].
+  cbn [livem filter snd] in Hin. destruct (v_undef y) eqn:E; cbn [negb] in Hin.
+  - apply IH; assumption.
+  - destruct Hin as [Hin|Hin]; [subst; cbn [snd]; destruct Hy; [congruence|assumption]|apply IH; assumption].
+Qed.
+
+Lemma vtext_fix : forall n v, (tsize v < n)%nat -> twf v -> vtext (embed (normalize v)) = vtext v.
+Proof.
+  induction n as [|n IH]; intros v Hn Hw; [lia|].
+  destruct v as [| | | |x|z|txt|s|xs|ms|p]; cbn [twf] in Hw; try contradiction; try reflexivity.
+  - cbn [normalize]. destruct z; reflexivity.
+  - rewrite normalize_arr. cbn [embed]. rewrite !arr_text. f_equal. f_equal. f_equal.
+    rewrite live_all.
+    2:{ intros y Hy. rewrite map_map in Hy. apply in_map_iff in Hy. destruct Hy as (x & Ex & Hin). subst y.
+        apply twf_defined. eapply live_twf; eauto. }
+    rewrite !map_map. apply map_ext_in. intros x Hin. apply IH.
+    + cbn [tsize] in Hn. clear -Hn Hin. induction xs as [|y t IHt]; [contradiction|].
+      cbn [live filter] in Hin. destruct (v_undef y); cbn [negb] in Hin.
+      * assert (tsize x < n)%nat by (apply IHt; [lia|assumption]). assumption.
+      * destruct Hin as [Hin|Hin]; [subst; lia|]. apply IHt; [lia|assumption].
+    + eapply live_twf; eauto.
+  - destruct Hw as [Hw Hnd]. rewrite normalize_obj. cbn [embed]. rewrite !obj_text. f_equal. f_equal. f_equal.
+    rewrite livem_all.
+    2:{ intros y Hy. rewrite map_map in Hy. apply in_map_iff in Hy. destruct Hy as (kv & Ex & Hin). subst y. cbn [snd].
+        apply twf_defined. apply (livem_twf ms Hw kv Hin). }
+    rewrite !map_map. apply map_ext_in. intros kv Hin. unfold member_text1. cbn [fst snd]. f_equal. f_equal. f_equal.
+    apply IH.
+    + cbn [tsize] in Hn. clear -Hn Hin. induction ms as [|[k y] t IHt]; [contradiction|].
+      cbn [livem filter snd] in Hin. destruct (v_undef y); cbn [negb] in Hin.
+      * assert (tsize (snd kv) < n)%nat by (apply IHt; [lia|assumption]). assumption.
+      * destruct Hin as [Hin|Hin]; [subst; cbn [snd]; lia|]. apply IHt; [lia|assumption].
+    + apply (livem_twf ms Hw kv Hin).
+  - cbn [normalize vtext]. apply IH; [cbn [tsize] in Hn; lia|assumption].
+Qed.
+
+(* printing the value that was read back gives the same text again *)
+Theorem stringify_fixpoint : forall t, twf t -> tcontainer t = true ->
+  stringify (embed (normalize t)) = stringify t.
+Proof.
+  intros t Hw Hc.
+  assert (Hs : forall v, tcontainer v = true -> stringify v = vtext v).
+  { induction v; try discriminate; intros H.
+    - cbn [stringify]. rewrite (str_value_text (S (tsize (VArr l))) _ (Nat.lt_succ_diag_r _)). reflexivity.
+    - cbn [stringify]. rewrite (str_value_text (S (tsize (VObj l))) _ (Nat.lt_succ_diag_r _)). reflexivity.
+    - cbn [stringify vtext]. apply IHv. exact H. }
+  rewrite (Hs t Hc). rewrite <- (vtext_fix (S (tsize t)) t (Nat.lt_succ_diag_r _) Hw).
+  apply Hs. clear Hs. induction t; try discriminate; try reflexivity.
+  cbn [normalize tcontainer] in *. apply IHt; assumption.
+Qed.
